@@ -242,3 +242,10 @@ impl DifficultyValues {
             .collect()
     }
 }
+
+/// Verification hook (`--cfg rosu_pp_verif`): the crate-private
+/// `OsuDifficultyObject::compute_slider_cursor_pos` on one object.
+#[cfg(rosu_pp_verif)]
+pub fn verif_compute_slider_cursor_pos(h: Pin<&mut OsuObject>, radius: f64) {
+    let _ = OsuDifficultyObject::compute_slider_cursor_pos(h, radius);
+}
